@@ -6,7 +6,10 @@ use crate::base_packet::{
     MCTPMessageBody, MCTPMessageBodyHeader, MCTPTransportHeader, MessageType,
 };
 use crate::control_packet::CommandCode;
-use crate::smbus_proto::{HDR_VERSION, MCTP_SMBUS_COMMAND_CODE, MCTPSMBusHeader, MCTPSMBusPacket};
+use crate::smbus_proto::{
+    HDR_VERSION, MCTP_SMBUS_COMMAND_CODE, MCTP_SMBUS_MAX_PACKET_LEN, MCTPSMBusHeader,
+    MCTPSMBusPacket,
+};
 
 /// The standard trait for all MCTP headers
 pub(crate) trait MCTPHeader {
@@ -146,6 +149,10 @@ pub trait SMBusMCTPRequestResponse {
 
         let packet = MCTPSMBusPacket::new(&mut smbus_header, &base_header, &body);
 
+        if packet.len() > MCTP_SMBUS_MAX_PACKET_LEN {
+            return Err(());
+        }
+
         Ok(packet.to_raw_bytes(buf))
     }
 
@@ -166,6 +173,10 @@ pub trait SMBusMCTPRequestResponse {
         let body = MCTPMessageBody::new(&header, *message_header, message_data, None);
 
         let packet = MCTPSMBusPacket::new(&mut smbus_header, &base_header, &body);
+
+        if packet.len() > MCTP_SMBUS_MAX_PACKET_LEN {
+            return Err(());
+        }
 
         Ok(packet.to_raw_bytes(buf))
     }
@@ -189,6 +200,10 @@ pub trait SMBusMCTPRequestResponse {
 
         let packet = MCTPSMBusPacket::new(&mut smbus_header, &base_header, &body);
 
+        if packet.len() > MCTP_SMBUS_MAX_PACKET_LEN {
+            return Err(());
+        }
+
         Ok(packet.to_raw_bytes(buf))
     }
 
@@ -209,6 +224,10 @@ pub trait SMBusMCTPRequestResponse {
         let body = MCTPMessageBody::new(&header, *message_header, message_data, None);
 
         let packet = MCTPSMBusPacket::new(&mut smbus_header, &base_header, &body);
+
+        if packet.len() > MCTP_SMBUS_MAX_PACKET_LEN {
+            return Err(());
+        }
 
         Ok(packet.to_raw_bytes(buf))
     }
